@@ -2,7 +2,7 @@ import json, os, sys
 sys.path.insert(0, os.path.join(os.path.dirname(__file__), ".."))
 from harness.registry import ALL, CLAIMED, NOT_YET, entry
 
-fixes = ["0d37815", "028deee", "bf02e2f", "1d5dfa7", "0d9f6b4", "298d03b", "03146b0", "592dfc9", "76cae51", "61d37f4", "1404dee"]
+fixes = ["0d37815", "028deee", "bf02e2f", "1d5dfa7", "0d9f6b4", "298d03b", "03146b0", "592dfc9", "76cae51", "61d37f4", "1404dee", "bc4a3f0"]
 m = {
     "version": 1,
     "setup_cmd": "/venv/bin/python -m harness.setup",
